@@ -100,7 +100,13 @@ impl Program {
 
 pub const MAX_TASKS: u64 = 6;
 
-fn gen_body(r: &mut Rng, kind: &str, allow_blocking: bool, allow_moved: bool) -> Vec<Step> {
+fn gen_body(
+    r: &mut Rng,
+    kind: &str,
+    allow_blocking: bool,
+    allow_moved: bool,
+    allow_bpanic: bool,
+) -> Vec<Step> {
     let n = r.range(0, 4);
     let mut body = Vec::new();
     for _ in 0..n {
@@ -114,7 +120,7 @@ fn gen_body(r: &mut Rng, kind: &str, allow_blocking: bool, allow_moved: bool) ->
                         r.range(0, 8)
                     },
                 }
-            } else if x < 78 {
+            } else if x < 78 && allow_bpanic {
                 Step::Panic
             } else {
                 Step::Sleep { ms: 0 }
@@ -205,14 +211,30 @@ pub fn generate(seed: u64, iour_ok: bool) -> Program {
     // that; random programs stay clear of it so that they terminate: no pool use with a one-slot
     // pool or with faulty workers, and a task that uses the pool is awaited before join.
     let allow_blocking = pool_limit != 1 && fault == "none";
+    // Known finding C18-dispatch-blocking-starved (AsyncifyPool): a pool thread that dies with a
+    // panicking dispatch_blocking closure can leave a concurrent AsyncifyPool::dispatch blocked for
+    // ever.  Random programs let a dispatch_blocking body panic only when nothing else can use the
+    // pool at that time: one dispatching thread, the receiver awaited right after the dispatch, no
+    // pool use by async bodies (dedicated scenario: poolpanic).
+    let allow_bpanic = ns == 1;
     let mut tasks = Vec::new();
     for id in 1..=ntasks {
         let kind = if r.pct(20) { "blocking" } else { "async" };
         tasks.push(TaskSpec {
             id: id as u32,
             kind: kind.to_string(),
-            body: gen_body(&mut r, kind, allow_blocking, sender_rt),
+            body: gen_body(&mut r, kind, allow_blocking, sender_rt, allow_bpanic),
         });
+    }
+    let bpanic = |t: &TaskSpec| t.kind == "blocking" && t.body.contains(&Step::Panic);
+    if tasks.iter().any(bpanic) {
+        for t in tasks.iter_mut().filter(|t| t.kind == "async") {
+            for st in t.body.iter_mut() {
+                if *st == Step::Blocking {
+                    *st = Step::Yield { n: 1 };
+                }
+            }
+        }
     }
     // distribute the tasks over the dispatching threads
     let mut threads: Vec<Vec<Op>> = vec![Vec::new(); ns];
@@ -226,6 +248,11 @@ pub fn generate(seed: u64, iour_ok: bool) -> Program {
             });
         }
         threads[s].push(Op::Dispatch { id: t.id });
+        if bpanic(t) {
+            // see allow_bpanic above
+            threads[s].push(Op::Wait { id: t.id });
+            continue;
+        }
         mine[s].push(t.id);
         // with faulty workers a receiver may legitimately stay pending until join is called
         if fault == "none" && r.pct(25) {
